@@ -144,6 +144,17 @@ ARDUINO_NAMES = {
     "constrain", "sq", "radians", "degrees", "bit", "lowByte", "highByte", "interrupts", "noInterrupts", "isnan", "isinf", "free", "malloc",
     "rand", "abort", "system", "atoi", "atof", "atol", "link", "unlink", "read", "write", "open", "close", "pipe", "dup", "nice", "sleep", "pause", "alarm", "sync", "access",
 }
+# names of the C library that the hosted mock core (and avr-libc through Arduino.h) declares at file scope; the transpiler does not
+# know them (F-C06-libc-name-identifier): the generators never declare them
+LIBC_NAMES = {
+    "EOF", "abort", "access", "alarm", "atof", "atoi", "atol", "close", "div", "dup", "exit", "free", "gamma", "index", "j0", "j1", "jn",
+    "link", "malloc", "nice", "open", "pause", "pipe", "printf", "rand", "read", "remove", "rename", "signal", "sleep", "std", "stdin",
+    "stdout", "strlen", "sync", "system", "time", "unlink", "write", "y0", "y1", "yn",
+}
+# what the transpiler refuses to declare since the repair of F-C06-cpp-keyword-identifier (ValueError "identifier ... is reserved in
+# C++"): the C++ keywords, the entry points of the sketch and the identifiers of the Arduino core.  The harness keeps its OWN list (it
+# must not follow a mutated parser): a script that declares one of these is inside the guard - it is either rejected or it compiles.
+REJECTED_NAMES = (CPP_RESERVED | ARDUINO_NAMES) - LIBC_NAMES
 VAR_POOL = ["count", "total", "n", "k", "idx", "level", "speed", "angle", "ratio", "flag", "ready", "msg", "label", "name", "text",
             "value", "reading", "dist", "temp", "acc", "lo", "hi", "step", "a", "b", "c", "d", "x", "y", "z", "w", "q", "t1", "t2",
             "samples", "items", "vals", "pattern", "note", "mode_s", "state", "limit", "delta", "gain", "offs", "pct", "tmp_v"]
@@ -241,7 +252,7 @@ def gen_int(env, depth):
     if env.vars_of("int"):
         choices += ["var"] * 4
     if depth > 0:
-        choices += ["bin", "bin", "abs", "minmax", "cast", "neg", "ifexp"]
+        choices += ["bin", "bin", "abs", "minmax", "cast", "neg", "ifexp", "int-of-literals"]
         if env.vars_of("String") or any(t.startswith("list[") for t in env.vars.values()):
             choices += ["len"]
         choices += ["aread", "dread"]
@@ -285,6 +296,9 @@ def gen_int(env, depth):
     if c == "neg":
         a, _ = gen_int(env, depth - 1)
         return f"(-{a})", "int"
+    if c == "int-of-literals":   # int() of a const char* expression (repaired: F-C01-int-strlit-cond)
+        env.feat("int(choice between literals)")
+        return f"int({gen_charp(env, depth - 1, numeric=True)})", "int"
     if c == "ifexp":
         cnd, _ = gen_bool(env, depth - 1)
         a, _ = gen_int(env, depth - 1)
@@ -443,6 +457,20 @@ def gen_str_literal(env):
     return py_literal(env.rng, gen_printable(env.rng))
 
 
+def gen_charp(env, depth, numeric=False):
+    """an expression the emitter prints as const char*: a literal, an f-string without fields, a choice between such"""
+    rng = env.rng
+    if depth <= 0 or rng.random() < 0.5:
+        if numeric:
+            return rng.choice(['"12"', '"13"', '"-3"', '" 7 "', '"0"', '"+41"', 'f"25"'])
+        txt = gen_printable(rng, 6)
+        if rng.random() < 0.2:
+            return fstring_literal(rng, [("s", txt)])
+        return py_literal(rng, txt)
+    cnd, _ = gen_bool(env, depth - 1)
+    return f"({gen_charp(env, depth - 1, numeric)} if {cnd} else {gen_charp(env, depth - 1, numeric)})"
+
+
 def gen_str(env, depth, allow_literal=True):
     """-> (src, 'String', is_literal)"""
     rng = env.rng
@@ -452,7 +480,7 @@ def gen_str(env, depth, allow_literal=True):
     if env.vars_of("String"):
         choices += ["var"] * 3
     if depth > 0:
-        choices += ["str()", "fstr", "fstr"]
+        choices += ["str()", "fstr", "fstr", "litcat"]
         if env.vars_of("String"):
             choices += ["concat", "concat", "ifexp"]
         if env.devs.get("SerialMonitor") and env.o.get("mon_read", True):
@@ -500,6 +528,20 @@ def gen_str(env, depth, allow_literal=True):
             a, _ = gen_int(env, 0)
             return f"({s} + str({a}))", "String", False
         return f"({s} + {rng.choice(env.vars_of('String'))})", "String", False
+    if c == "litcat":       # `+` of two const char* expressions (repaired: F-C06-literal-concat)
+        a, b = gen_charp(env, depth - 1), gen_charp(env, depth - 1)
+        env.feat("literal + literal")
+        k = rng.random()
+        if k < 0.5:
+            return f"({a} + {b})", "String", False
+        if k < 0.65:
+            return f"(({a} + {b}) + {gen_charp(env, depth - 1)})", "String", False
+        if k < 0.8:
+            return f"({a} + ({b} + {gen_charp(env, depth - 1)}))", "String", False
+        if env.vars_of("String"):
+            sv = rng.choice(env.vars_of("String"))
+            return (f"(({a} + {b}) + {sv})" if k < 0.9 else f"({sv} + ({a} + {b}))"), "String", False
+        return f"({a} + {b})", "String", False
     if c == "ifexp":
         cnd, _ = gen_bool(env, depth - 1)
         s = rng.choice(env.vars_of("String"))
@@ -1072,11 +1114,27 @@ def try_stmt(env, depth):
     rng = env.rng
     b1 = env.clone_scope()
     out = ["try:"] + indent(block(b1, depth - 1, rng.randint(1, 2)))
-    b2 = env.clone_scope()
-    out += ["except:"] + indent(block(b2, depth - 1, rng.randint(1, 2)))
+    # handlers: bare, named, named with a target, dotted class, several in a row (repaired: F-C06-named-except)
+    form = rng.choice(["bare", "bare", "named", "named", "as", "as", "dotted", "two", "three"])
+    heads = {"bare": ["except:"], "named": ["except {E}:"], "as": ["except {E} as {t}:"], "dotted": ["except {D}:"],
+             "two": ["except {E} as {t}:", "except:"], "three": ["except {E}:", "except {D} as {t}:", "except {E2}:"]}[form]
+    excs = rng.sample(EXC_NAMES, 2)
+    branches = [b1]
+    for h in heads:
+        b2 = env.clone_scope()
+        tgt = env.fresh(["err", "exc", "e1", "problem"]) if "{t}" in h else None
+        if tgt:
+            b2.used.add(tgt)
+        out += [h.format(E=excs[0], E2=excs[1], D=rng.choice(EXC_DOTTED), t=tgt)] + indent(block(b2, depth - 1, rng.randint(1, 2)))
+        branches.append(b2)
     env.feat("try/except")
-    merge_branch_vars(env, [b1, b2])
+    env.feat("except handler: " + form)
+    merge_branch_vars(env, branches)
     return out
+
+
+EXC_NAMES = ["ValueError", "Exception", "TypeError", "KeyError", "ZeroDivisionError", "RuntimeError", "OSError", "MyError"]
+EXC_DOTTED = ["errors.Timeout", "pkg.sub.Failure", "errors.Busy"]
 
 
 # ----------------------------------------------------------------------------- devices
@@ -1655,19 +1713,26 @@ def shapes_of(src: str):
         # transpiler cannot translate instead of dropping them" (finding F-C06-for-over-list, fixed): no longer a guard shape
         if isinstance(n, ast.comprehension) and not (isinstance(n.iter, ast.Call) and isinstance(n.iter.func, ast.Name) and n.iter.func.id == "range"):
             out.add("comprehension-not-range")
-        if isinstance(n, ast.ExceptHandler) and n.type is not None:
-            out.add("named-except")
-        if isinstance(n, ast.BinOp) and isinstance(n.op, ast.Add) and _is_strlit(n.left) and _is_strlit(n.right):
-            out.add("literal-concat")
+        if isinstance(n, ast.ExceptHandler) and n.type is not None and not _is_dotted_name(n.type):
+            out.add("except-tuple")
         if isinstance(n, ast.Call) and isinstance(n.func, ast.Attribute) and n.func.attr == "get_mode":
             out.add("get-mode")
-        if isinstance(n, ast.Name) and (n.id in CPP_RESERVED or n.id in ARDUINO_NAMES) and isinstance(n.ctx, ast.Store):
-            out.add("reserved-name")
-        if isinstance(n, ast.arg) and (n.arg in CPP_RESERVED or n.arg in ARDUINO_NAMES):
-            out.add("reserved-name")
-        if isinstance(n, ast.FunctionDef) and (n.name in CPP_RESERVED or n.name in ARDUINO_NAMES):
-            out.add("reserved-name")
+        if isinstance(n, ast.Name) and n.id in LIBC_NAMES and isinstance(n.ctx, ast.Store):
+            out.add("libc-name")
+        if isinstance(n, ast.arg) and n.arg in LIBC_NAMES:
+            out.add("libc-name")
+        if isinstance(n, ast.FunctionDef) and n.name in LIBC_NAMES:
+            out.add("libc-name")
+        if isinstance(n, ast.ExceptHandler) and (n.name in LIBC_NAMES or (n.type is not None and any(
+                isinstance(m, ast.Name) and m.id in LIBC_NAMES or isinstance(m, ast.Attribute) and m.attr in LIBC_NAMES for m in ast.walk(n.type)))):
+            out.add("libc-name")
     return out
+
+
+def _is_dotted_name(n):
+    while isinstance(n, ast.Attribute):
+        n = n.value
+    return isinstance(n, ast.Name)
 
 
 _INT_CALLS = {"int", "len", "analog_read", "digital_read", "millis"}
@@ -1763,7 +1828,24 @@ def repaired_region(src: str):
             out["string constant with a control character"] += 1
         if isinstance(n, ast.For) and not (isinstance(n.iter, ast.Call) and isinstance(n.iter.func, ast.Name) and n.iter.func.id == "range"):
             out["for statement over something else than range(...) (rejected since the repair of the silent drops)"] += 1
+        if isinstance(n, ast.BinOp) and isinstance(n.op, ast.Add) and _is_charp(n.left) and _is_charp(n.right):
+            out["+ of two const char* expressions"] += 1
+        if isinstance(n, ast.Call) and isinstance(n.func, ast.Name) and n.func.id in ("int", "float") and len(n.args) == 1 \
+                and isinstance(n.args[0], ast.IfExp) and _is_charp(n.args[0]):
+            out["int() / float() of a choice between literals"] += 1
+        if isinstance(n, ast.ExceptHandler) and n.type is not None and _is_dotted_name(n.type):
+            out["named except handler"] += 1
+        if (isinstance(n, ast.Name) and isinstance(n.ctx, ast.Store) and n.id in REJECTED_NAMES) or (isinstance(n, ast.arg) and n.arg in REJECTED_NAMES) \
+                or (isinstance(n, ast.FunctionDef) and n.name in REJECTED_NAMES) or (isinstance(n, ast.ExceptHandler) and n.name in REJECTED_NAMES):
+            out["declaration of a name reserved in C++"] += 1
     return out
+
+
+def _is_charp(n):
+    """the harness's own reading of 'emitted as const char*': a literal, an f-string without fields, a choice between such"""
+    if isinstance(n, ast.IfExp):
+        return _is_charp(n.body) and _is_charp(n.orelse)
+    return _is_strlit(n)
 
 
 def _is_strlit(n):
